@@ -291,7 +291,7 @@ func drawSide(t *rapid.T, cfg *ImgCfg, name string) int {
 	return v
 }
 
-var contentClasses = []string{"flat", "pal2", "pal4", "pal16", "pal256", "gradient", "photo", "noise", "tiled", "sparse", "regions", "bands", "drawn", "outlier", "dyadic", "lenfib", "letterbox"}
+var contentClasses = []string{"flat", "pal2", "pal4", "pal16", "pal256", "gradient", "photo", "noise", "tiled", "sparse", "regions", "bands", "drawn", "outlier", "dyadic", "lenfib", "letterbox", "patches"}
 var alphaClasses = []string{"opaque", "opaque", "binary", "levels", "gradient", "noise", "transparent", "transp-colored", "semi-flat", "late", "early", "holes"}
 
 // DrawImg draws a picture case.
@@ -376,6 +376,9 @@ func DrawImg(t *rapid.T, cfg ImgCfg) *Img {
 	s.countColors()
 	return s
 }
+
+// Recount refreshes Colors after Pix was replaced.
+func (s *Img) Recount() { s.countColors() }
 
 func (s *Img) countColors() {
 	seen := map[[4]byte]struct{}{}
@@ -514,6 +517,49 @@ func RenderContent(w, h int, content, alpha string, seed uint64) []byte {
 					set(x, y, [3]byte{r.Byte(), r.Byte(), r.Byte()})
 				} else {
 					set(x, y, c)
+				}
+			}
+		}
+	case "patches":
+		// flat ground with 1-3 small textured patches (8-40 px) whose positions favour the first macroblocks, the
+		// last ones, or anywhere: at low quality everything but the patches is skipped, so long runs of skipped
+		// macroblocks fall before, between or after the few macroblocks that carry coefficients
+		c := [3]byte{r.Byte(), r.Byte(), r.Byte()}
+		for y := 0; y < h; y++ {
+			for x := 0; x < w; x++ {
+				set(x, y, c)
+			}
+		}
+		n := 1 + r.Intn(3)
+		if r.Intn(8) == 0 {
+			n = 0
+		}
+		for k := 0; k < n; k++ {
+			pw, ph := 8+r.Intn(33), 8+r.Intn(33)
+			var px, py int
+			switch r.Intn(4) {
+			case 0: // top-left: the first macroblocks
+				px, py = r.Intn(8), r.Intn(8)
+			case 1: // bottom-right: the last macroblocks
+				px, py = w-pw-r.Intn(8), h-ph-r.Intn(8)
+			default:
+				px, py = r.Intn(w), r.Intn(h)
+			}
+			amp := 20 + r.Intn(200)
+			for y := maxInt(py, 0); y < minInt(py+ph, h); y++ {
+				for x := maxInt(px, 0); x < minInt(px+pw, w); x++ {
+					var q [3]byte
+					for j := 0; j < 3; j++ {
+						v := int(c[j]) + r.Intn(2*amp+1) - amp
+						if v < 0 {
+							v = 0
+						}
+						if v > 255 {
+							v = 255
+						}
+						q[j] = byte(v)
+					}
+					set(x, y, q)
 				}
 			}
 		}
